@@ -25,10 +25,17 @@ import (
 )
 
 type conformTest struct {
-	Name  string   `json:"name"`
-	Props []string `json:"props"`
-	Bound string   `json:"bound"`
-	What  string   `json:"what"`
+	Name string `json:"name"`
+	// Props: the reference is the definition (encoding/json, strconv, unicode/utf8): every
+	// failing case counts, in the first environment only unless AllEnvs is set.
+	Props   []string `json:"props"`
+	AllEnvs bool     `json:"all_envs"`
+	// Equiv: property -> index of the environment that must behave exactly as the first
+	// one (same failing cases with the same signatures, i.e. the same observable results;
+	// a case both back ends get wrong in the same way is not a difference between them).
+	Equiv map[string]int `json:"equiv"`
+	Bound string         `json:"bound"`
+	What  string         `json:"what"`
 }
 
 type conformHarness struct {
@@ -40,6 +47,7 @@ type conformHarness struct {
 
 type conformFailure struct {
 	ID, Msg, Env string
+	props        []string
 }
 
 type conformResult struct {
@@ -54,7 +62,9 @@ type conformResult struct {
 	Status   string   `json:"status"` // "pass" | "fail" | "not-run"
 	Secs     float64  `json:"seconds"`
 	Label    string   `json:"label"`
-	fails    []conformFailure
+	fails    []conformFailure // what counts for the property being checked
+	all      []conformFailure // every failing line of this run
+	props    []string
 	output   string
 }
 
@@ -78,10 +88,29 @@ func loadConform() []conformHarness {
 func runConform(prop string) []*conformResult {
 	var out []*conformResult
 	for _, h := range loadConform() {
+		envs := h.Env
+		if len(envs) == 0 {
+			envs = [][]string{{}}
+		}
 		var names []string
 		byName := map[string]conformTest{}
+		needEnv := map[int]bool{}
 		for _, t := range h.Tests {
+			sel := false
 			if prop == "ALL" || hasPropExact(t.Props, prop) {
+				sel = true
+				needEnv[0] = true
+				if t.AllEnvs || prop == "ALL" {
+					for i := range envs {
+						needEnv[i] = true
+					}
+				}
+			}
+			if k, ok := t.Equiv[prop]; ok && k < len(envs) {
+				sel = true
+				needEnv[0], needEnv[k] = true, true
+			}
+			if sel {
 				names = append(names, t.Name)
 				byName[t.Name] = t
 			}
@@ -90,15 +119,16 @@ func runConform(prop string) []*conformResult {
 			continue
 		}
 		if prop == "ALL" {
-			if pk := os.Getenv("GOWP_PKGS"); pk != "" && !strings.Contains(pk, "native") && !strings.Contains(pk, h.Pkg) {
+			if pk := os.Getenv("GOWP_PKGS"); pk != "" && !conformRelevant(h, pk) {
 				continue
 			}
 		}
-		envs := h.Env
-		if len(envs) == 0 {
-			envs = [][]string{{}}
-		}
-		for _, env := range envs {
+		var perEnv [][]*conformResult
+		for ei, env := range envs {
+			if !needEnv[ei] {
+				perEnv = append(perEnv, nil)
+				continue
+			}
 			start := time.Now()
 			outp, ran := runConformTest(h, names, env)
 			secs := time.Since(start).Seconds()
@@ -139,6 +169,7 @@ func runConform(prop string) []*conformResult {
 				for _, m := range reConformFail.FindAllStringSubmatch(sec, -1) {
 					r.fails = append(r.fails, conformFailure{ID: m[1], Msg: m[2], Env: strings.Join(env, " ")})
 				}
+				r.all = append([]conformFailure{}, r.fails...)
 				if r.Status == "fail" && len(r.fails) == 0 {
 					msg := "the harness test crashed or failed without a case line"
 					if i := strings.Index(sec, "panic:"); i >= 0 {
@@ -152,7 +183,102 @@ func runConform(prop string) []*conformResult {
 				}
 				r.Failures = len(r.fails)
 			}
+			perEnv = append(perEnv, out[len(out)-len(names):])
 		}
+		// which failing cases count for this property
+		for ei, rs := range perEnv {
+			for ti, r := range rs {
+				t := byName[r.Test]
+				std := prop == "ALL" || hasPropExact(t.Props, prop)
+				if !(std && (ei == 0 || t.AllEnvs)) {
+					r.fails = nil // run only as one side of a comparison
+				}
+				if prop == "ALL" {
+					r.props = append(r.props, t.Props...)
+				}
+				if ei == 0 {
+					continue
+				}
+				base := perEnv[0][ti]
+				for p, k := range t.Equiv {
+					if k != ei || !(prop == "ALL" || prop == p) || base.Status == "not-run" || r.Status == "not-run" {
+						continue
+					}
+					diff := conformDiff(base, r)
+					for i := range diff {
+						diff[i].props = []string{p}
+					}
+					r.fails = append(r.fails, diff...)
+				}
+				r.Failures = len(r.fails)
+			}
+		}
+	}
+	return out
+}
+
+// conformRelevant: with GOWP_PKGS (seed matrix) a harness runs when one of the selected
+// packages is the harness package, below it, or (for the root package harness, which
+// drives the whole codec) any encoder/decoder/native package.
+func conformRelevant(h conformHarness, pk string) bool {
+	for _, s := range strings.Split(pk, ",") {
+		if s == "" {
+			continue
+		}
+		if s == h.Pkg || strings.HasPrefix(s, h.Pkg+"/") {
+			return true
+		}
+		if h.Pkg == "." && (s == "sonic" || strings.Contains(s, "encoder") || strings.Contains(s, "decoder") || strings.Contains(s, "native") || strings.Contains(s, "internal/rt") || strings.Contains(s, "internal/caching") || strings.Contains(s, "internal/resolver") || s == "api" || s == "option" || s == "utf8" || s == "unquote" || s == "loader") {
+			return true
+		}
+	}
+	return false
+}
+
+// conformDiff: the failing lines (case id + signature, i.e. the message up to " -- ") that
+// one environment prints and the other does not.
+func conformDiff(a, b *conformResult) []conformFailure {
+	sig := func(r *conformResult) map[string]string {
+		m := map[string]string{}
+		for _, f := range r.all {
+			msg := f.Msg
+			if i := strings.Index(msg, " -- "); i >= 0 {
+				msg = msg[:i]
+			}
+			m[f.ID+" :: "+msg] = f.ID
+		}
+		return m
+	}
+	sa, sb := sig(a), sig(b)
+	var out []conformFailure
+	seen := map[string]bool{}
+	add := func(line, id, where, other string) {
+		if seen[id] {
+			return
+		}
+		seen[id] = true
+		out = append(out, conformFailure{ID: id, Msg: fmt.Sprintf("the back ends differ: under [%s] the harness reports \"%s\", under [%s] it does not", where, line, other), Env: where})
+	}
+	var keys []string
+	for k := range sa {
+		keys = append(keys, k)
+	}
+	for k := range sb {
+		keys = append(keys, k)
+	}
+	sort.Strings(keys)
+	ea, eb := strings.Join(a.Env, " "), strings.Join(b.Env, " ")
+	for _, k := range keys {
+		_, ina := sa[k]
+		_, inb := sb[k]
+		if ina && !inb {
+			add(k, sa[k], ea, eb)
+		} else if inb && !ina {
+			add(k, sb[k], eb, ea)
+		}
+	}
+	if a.Status == "pass" && b.Status == "pass" && a.Cases != b.Cases {
+		out = append(out, conformFailure{ID: strings.TrimPrefix(a.Test, "TestVerifConform_") + ":case-count", Msg: fmt.Sprintf("%d cases under [%s], %d under [%s]", a.Cases, ea, b.Cases, eb), Env: eb})
 	}
 	return out
 }
